@@ -36,6 +36,7 @@ class TLCResult:
         self.wall_s = 0.0
         self.cmd = ""
         self.finished = False
+        self.univ = None
 
     def ok(self):
         return self.violation is None
@@ -44,6 +45,7 @@ class TLCResult:
 _EMIT_RE = re.compile(r'^<<"EMIT", "(.*)">>$')
 _ACCEPT_RE = re.compile(r'^<<"ACCEPT", (\d+)>>$')
 _NOTE_RE = re.compile(r'^<<"NOTE", (.*)>>$')
+_UNIV_RE = re.compile(r'^<<"UNIV", "(.*)">>$')
 
 
 def _unescape_tla_string(s):
@@ -146,7 +148,10 @@ def _parse(out, res):
                     bad += 1
             else:
                 m = _ACCEPT_RE.match(ln)
-                if m:
+                mu = _UNIV_RE.match(ln)
+                if mu:
+                    res.univ = json.loads(_unescape_tla_string(mu.group(1)))
+                elif m:
                     res.accepts.add(int(m.group(1)))
                 else:
                     m = _NOTE_RE.match(ln)
